@@ -97,6 +97,7 @@ func propC12(c model.Case) hh.Verdict {
 		in = c.Input.Go()
 	}
 	dest := newDest(typ, c, false)
+	before := model.DeepCopy(dest.Elem())
 	exec := c.Exec
 	exec.LogIssues = true
 	res := model.Run(schema, env, exec, in, dest)
@@ -129,7 +130,7 @@ func propC12(c model.Case) hh.Verdict {
 	postSeq := map[grp][]model.Event{}
 	var postOrder []grp
 	issueSeen := false
-	nested, postErr, preFail := false, false, false
+	nested, postErr, preFail, caughtWithPosts := false, false, false, false
 	for i, ev := range res.Log {
 		n := nodes[ev.Node]
 		switch ev.Kind {
@@ -264,6 +265,27 @@ func propC12(c model.Case) hh.Verdict {
 			}
 		}
 	}
+	// a node whose Catch value was used is a node like any other afterwards: on success its PostTransforms ran
+	// (the documentation: whatever triggers the catch, execution continues with the PostTransforms)
+	if res.NoIssues() {
+		if spec := model.Spec(c.Root, model.SpecCfg{Mode: c.Exec.Mode}, in, before); spec.Unknown == "" {
+			for _, co := range spec.Catches {
+				n := nodes[co.Node]
+				if !co.Caught || n == nil || len(n.Posts) == 0 {
+					continue
+				}
+				for _, o := range occ[co.Node] {
+					if o.path != co.Path {
+						continue
+					}
+					if ran := len(postSeq[grp{c12Canon[co.Node], o.addr}]); ran != len(n.Posts) {
+						return hh.Fail("n%d at %q used its Catch value and the execution succeeded, but %d of its %d PostTransforms ran", co.Node, co.Path, ran, len(n.Posts))
+					}
+					caughtWithPosts = true
+				}
+			}
+		}
+	}
 	// Preprocess: an error becomes an issue and the wrapped schema is skipped
 	for id, n := range nodes {
 		if n.Kind != model.KPre || (n.PreFn != "error" && n.PreFn != "verror") {
@@ -329,6 +351,9 @@ func propC12(c model.Case) hh.Verdict {
 	}
 	if preFail {
 		v.Classes = append(v.Classes, "preprocess-error")
+	}
+	if caughtWithPosts {
+		v.Classes = append(v.Classes, "catch-used-then-posttransforms")
 	}
 	if len(c.Exec.CtxVals) > 0 {
 		v.Classes = append(v.Classes, "ctx-values")
